@@ -707,7 +707,11 @@ def _eval_case(case: dict) -> list:
             return isinstance(node, dict) and "r" in node
         # F51 is recorded for cycles THROUGH AN ALIAS SCHEMA only; the same failure on a document without one is a new violation
         has_alias = any(_is_alias(d[1]) for d in decls)
-        fail("depth-limit-bypassed-recursion-error" + ("" if has_alias else "-no-alias-schema"), f"more than {ORACLE_FUEL} nested _parse_schema calls "
+        from pyopenapi_gen.core.utils import NameSanitizer as _NS
+        # F61: a declared name that is not class-cased is registered under its sanitised name and looked up under the raw one
+        raw_name = any(_NS.sanitize_class_name(d[0]) != d[0] for d in decls)
+        fail("depth-limit-bypassed-recursion-error" + ("" if has_alias else "-unsanitised-name" if raw_name else "-other"),
+             f"more than {ORACLE_FUEL} nested _parse_schema calls "
              f"(RecursionError at the default interpreter limit), PYOPENAPI_MAX_DEPTH={md}",
              "recursion cut by placeholders at the depth limit")
         return fails
